@@ -50,6 +50,8 @@ type Harness struct {
 	// Replay re-executes one case on the current build without the explorer.
 	// nil means the case passes.
 	Replay func(c Case) *Failure
+	// HangLimit, if set, replaces mc.HangLimit when replaying this harness's cases.
+	HangLimit time.Duration
 }
 
 // HarnessStats is the per-harness part of the evidence.
@@ -217,6 +219,7 @@ var HangLimit = 30 * time.Second
 type flight struct {
 	since time.Time
 	desc  func() Case
+	limit time.Duration // 0: HangLimit
 }
 
 var (
@@ -230,9 +233,13 @@ var (
 
 // InFlight registers an operation that is about to run; call the returned
 // function when it has returned. It costs two atomic operations.
-func InFlight(desc func() Case) func() {
+func InFlight(desc func() Case) func() { return InFlightLimit(desc, 0) }
+
+// InFlightLimit is InFlight for an operation that is known to be long (inputs
+// of tens of thousands of elements): limit replaces HangLimit.
+func InFlightLimit(desc func() Case, limit time.Duration) func() {
 	id := atomic.AddInt64(&flightID, 1)
-	f := &flight{time.Unix(0, coarseNow.Load()), desc}
+	f := &flight{time.Unix(0, coarseNow.Load()), desc, limit}
 	sl := &slots[id&4095]
 	if sl.CompareAndSwap(nil, f) {
 		return func() { sl.Store(nil) }
@@ -245,10 +252,17 @@ func startWatchdog() {
 	coarseNow.Store(time.Now().UnixNano())
 	go func() {
 		check := func(f *flight) {
-			if f != nil && time.Since(f.since) > HangLimit+2*time.Second && onHang != nil {
+			if f == nil {
+				return
+			}
+			limit := HangLimit
+			if f.limit > 0 {
+				limit = f.limit
+			}
+			if time.Since(f.since) > limit+2*time.Second && onHang != nil {
 				hangOnce.Do(func() {
 					c := f.desc()
-					c.Msg = fmt.Sprintf("hang: the operation did not return within %v: %s", HangLimit, c.Msg)
+					c.Msg = fmt.Sprintf("hang: the operation did not return within %v: %s", limit, c.Msg)
 					onHang(&c)
 				})
 			}
@@ -456,13 +470,17 @@ func SafeReplay(h Harness, c Case) *Failure {
 		}()
 		done <- h.Replay(c)
 	}()
-	t := time.NewTimer(HangLimit)
+	limit := HangLimit
+	if h.HangLimit > 0 {
+		limit = h.HangLimit
+	}
+	t := time.NewTimer(limit)
 	defer t.Stop()
 	select {
 	case f := <-done:
 		return f
 	case <-t.C:
-		return Failf(c.Step, "hang: the replay did not return within %v", HangLimit)
+		return Failf(c.Step, "hang: the replay did not return within %v", limit)
 	}
 }
 
